@@ -1,6 +1,7 @@
 package codec
 
 import (
+	"bytes"
 	"strconv"
 	"encoding/json"
 	"fmt"
@@ -97,6 +98,8 @@ func parseInto(tmpl *Msg, wire []byte, strict bool) ParseObs {
 		po.Err = "harness: " + err.Error()
 		return po
 	}
+	// (the bytes handed to the parser are left alone afterwards: the unchanged library keeps Raw and Float values as slices of the
+	// caller's buffer, so "what was parsed survives a reuse of the buffer" is not something the properties promise - see DESIGN 0.5, C17j)
 	err, pn := safely(func() error {
 		if strict {
 			return encoding.Unmarshal(target, wire)
@@ -196,6 +199,127 @@ func RunCase(c *Case) (*CaseObs, error) {
 		o.Lookups = append(o.Lookups, lo)
 	}
 	return o, nil
+}
+
+// RunSharedComponent: several message objects that share ONE header component object (the API hands components around by pointer:
+// SetHeader, SetInstrument, ...) are serialized at the same time, each by a goroutine of its own - what several sessions of one
+// process do with a block they all carry.  Serialization only reads the component; every output must be the message's bytes.
+func RunSharedComponent(c *Case, k, iters int) []*CaseObs {
+	c.M.Norm()
+	first, err := Build(&c.M, false)
+	if err != nil {
+		return nil
+	}
+	want, err := first.ToBytes()
+	if err != nil {
+		return nil
+	}
+	msgs := []*fix.Message{first}
+	for i := 1; i < k; i++ {
+		m, err := Build(&c.M, false)
+		if err != nil {
+			return nil
+		}
+		m.SetHeader(first.Header())
+		msgs = append(msgs, m)
+	}
+	mk := func(id string, w []byte) *CaseObs {
+		o := &CaseObs{K: "case", ID: id, M: c.M, Target: 0, SameTemplate: true, SerOk: true, Wire: ToB(w), Lookups: []LookupObs{}}
+		o.Parse, o.Nonstrict = emptyParse(&c.M), emptyParse(&c.M)
+		return o
+	}
+	out := []*CaseObs{mk(c.ID+"/shared-component-sequential", want)}
+	var mu sync.Mutex
+	var wg sync.WaitGroup
+	start := make(chan struct{})
+	for gi, m := range msgs {
+		wg.Add(1)
+		go func(gi int, m *fix.Message) {
+			defer wg.Done()
+			<-start
+			for it := 0; it < iters; it++ {
+				var w []byte
+				err, pn := safely(func() error {
+					var e error
+					w, e = m.ToBytes()
+					return e
+				})
+				if err != nil || pn != "" || !bytes.Equal(w, want) {
+					mu.Lock()
+					if len(out) < 4 {
+						o := mk(fmt.Sprintf("%s/shared-component-concurrent-%d-%d", c.ID, gi, it), w)
+						if err != nil || pn != "" {
+							o.SerOk, o.SerErr, o.Wire = false, fmt.Sprintf("%v %s", err, pn), B{}
+						}
+						out = append(out, o)
+					}
+					mu.Unlock()
+				}
+			}
+		}(gi, m)
+	}
+	close(start)
+	wg.Wait()
+	return out
+}
+
+// RunSharedParser: ONE unmarshaller object (encoding.NewDefaultUnmarshaller, what Session.SetUnmarshaller lets an application
+// install in all its sessions) parses different valid messages at the same time, one goroutine per message.  Every parse is
+// judged like a parse of its own; only deviating ones (and the first of each goroutine) are recorded.
+func RunSharedParser(cases []*Case, base []*CaseObs, iters int) []*CaseObs {
+	shared := encoding.NewDefaultUnmarshaller(true)
+	var out []*CaseObs
+	var mu sync.Mutex
+	var wg sync.WaitGroup
+	start := make(chan struct{})
+	for gi := range cases {
+		if !base[gi].SerOk || !wellFormedForParse(&cases[gi].M) {
+			continue
+		}
+		wg.Add(1)
+		go func(gi int) {
+			defer wg.Done()
+			tmpl, wire := &cases[gi].M, base[gi].Wire.Bytes()
+			<-start
+			for it := 0; it < iters; it++ {
+				po := emptyParse(tmpl)
+				target, err := Build(tmpl, true)
+				if err != nil {
+					return
+				}
+				err, pn := safely(func() error { return shared.Unmarshal(target, wire) })
+				if err != nil || pn != "" {
+					po.Err = fmt.Sprintf("%v %s", err, pn)
+				} else if d, derr := Dump(tmpl, target); derr != nil {
+					po.Err = "dump: " + derr.Error()
+				} else {
+					rs, rerr := target.ToBytes()
+					if rerr != nil {
+						po.Err = "reserialize: " + rerr.Error()
+					} else {
+						po.Ok, po.M, po.Reser = true, d, ToB(rs)
+					}
+				}
+				deviates := !po.Ok || !bytes.Equal(po.Reser.Bytes(), wire)
+				if it == 0 || deviates {
+					o := *base[gi]
+					o.ID = fmt.Sprintf("%s/shared-parser-%d", base[gi].ID, it)
+					o.Parsed, o.Parse, o.Nonstrict, o.Lookups = true, po, po, []LookupObs{}
+					mu.Lock()
+					if it == 0 || len(out) < 40 {
+						out = append(out, &o)
+					}
+					mu.Unlock()
+					if deviates {
+						return
+					}
+				}
+			}
+		}(gi)
+	}
+	close(start)
+	wg.Wait()
+	return out
 }
 
 // RunAgain serializes one message object twice and records the second result (framing only).
